@@ -61,6 +61,14 @@ CHECKS = {
             "as-found model (bucket-local positions) must be rejected by TLC.",
             "Trusted: TLC, Strings.tla.",
             "TLA+ model checking (TLC) + spec-to-code replay + trace validation"),
+    "C08": ("DESIGN.md 4/C08",
+            "Metrics.tla: Cdist, SelfCdist + Squareform and LoopPdist machines over the reference weighted edit distance; TLC checks CdistExact, "
+            "PdistLayout, CondBijection (m <= 12), the metric facts (identity, reversal swaps ins/del, triangle inequality, unit weights = "
+            "Levenshtein) and closed forms for the a^n/b^m families; mutants (swapped ins/del weights, transposed squareform) are rejected. "
+            "Every terminal behaviour is executed on Levenshtein, WeightedLevenshtein, pdist, cdist (callable + forwarded kwargs, three "
+            "containers); medium-length random strings and strings up to 400 letters are validated by TraceMetrics.tla.",
+            "Trusted: TLC, Strings.tla; long strings only through closed forms validated against the DP for n, m <= 5.",
+            "TLA+ model checking (TLC) + spec-to-code replay + trace validation"),
     "C10": ("DESIGN.md 4/C10",
             "MakeOutput of NNSearch.tla models COO accumulation as a sum (invariant DenseExact); InputCheck.tla models the argument "
             "guard sequence (invariant RejectedIffInvalid, action property ErrorIsFinal). Every terminal behaviour of small NNSearch models "
